@@ -263,13 +263,13 @@ Definition apropos_pinned (root : list port) (path : str) : ares :=
 
 (* one found port: the name pointer (None after the unique-prefix pass marked
    it unused), the blob data pointer (None = NULL) and the blob length *)
-Record entry := { e_name : option str; e_data : option (list byte); e_len : Z }.
+Record hit := { e_name : option str; e_data : option (list byte); e_len : Z }.
 
-Inductive sres := SOk (es : list entry) | SOob | SUnsupported | SCrash.
+Inductive sres := SOk (es : list hit) | SOob | SUnsupported | SCrash.
 
 (* the collection lambda fn(p); None = MetaContainer::length read outside
    the block *)
-Definition collect_one (needle : str) (p : port) : option (list entry) :=
+Definition collect_one (needle : str) (p : port) : option (list hit) :=
   if prefixb needle (pname p) then
     match pmeta p with
     | Some ((c :: _) as m) =>
@@ -287,7 +287,24 @@ Definition collect_one (needle : str) (p : port) : option (list entry) :=
     end
   else Some [].
 
-Fixpoint collect (needle : str) (t : list port) : option (list entry) :=
+(* the collection lambda before the commit "fix: path_search reported a
+   metadata length one byte past the block": MetaContainer(p.metadata).length()
+   on the pointer that still has its leading ':' (kept for PathRegress.v) *)
+Definition collect_one_pinned (needle : str) (p : port) : option (list hit) :=
+  if prefixb needle (pname p) then
+    match pmeta p with
+    | Some ((c :: _) as m) =>
+        if c =? 0 then Some [{| e_name := Some (pname p); e_data := None; e_len := 0 |}]
+        else match length_ m with
+             | Some n => Some [{| e_name := Some (pname p); e_data := Some m; e_len := n |}]
+             | None => None
+             end
+    | Some [] => None
+    | None => Some [{| e_name := Some (pname p); e_data := None; e_len := 0 |}]
+    end
+  else Some [].
+
+Fixpoint collect (needle : str) (t : list port) : option (list hit) :=
   match t with
   | [] => Some []
   | p :: r =>
@@ -307,7 +324,7 @@ Fixpoint str_ltb (a b : str) : bool :=
   end.
 
 (* is_less / is_less_2 on pairs; a NULL name sorts last *)
-Definition entry_ltb (a b : entry) : bool :=
+Definition entry_ltb (a b : hit) : bool :=
   match e_name a, e_name b with
   | None, _ => false
   | Some _, None => true
@@ -316,13 +333,13 @@ Definition entry_ltb (a b : entry) : bool :=
 
 (* std::sort is modelled as a stable insertion sort; the order it gives to
    entries with equal names is unspecified and canonicalised in the tie *)
-Fixpoint insert_sorted (x : entry) (l : list entry) : list entry :=
+Fixpoint insert_sorted (x : hit) (l : list hit) : list hit :=
   match l with
   | [] => [x]
   | y :: r => if entry_ltb y x then y :: insert_sorted x r else x :: l
   end.
 
-Fixpoint sort_entries (l : list entry) : list entry :=
+Fixpoint sort_entries (l : list hit) : list hit :=
   match l with
   | [] => []
   | x :: r => insert_sorted x (sort_entries r)
@@ -339,7 +356,7 @@ Fixpoint last_char (s : str) : option byte :=
      if(strlen_prev < strlen(args[pos].s) &&
         0 == strncmp(args[pos].s, args[prev_pos].s, strlen_prev) &&
         args[prev_pos].s[strlen_prev-1] == '/')  mark unused  else  prev = this *)
-Fixpoint mark_pass (prev : str) (l : list entry) : option (list entry) :=
+Fixpoint mark_pass (prev : str) (l : list hit) : option (list hit) :=
   match l with
   | [] => Some []
   | e :: r =>
@@ -369,10 +386,10 @@ Fixpoint mark_pass (prev : str) (l : list entry) : option (list entry) :=
       end
   end.
 
-Definition count_unused (l : list entry) : nat :=
+Definition count_unused (l : list hit) : nat :=
   length (filter (fun e => match e_name e with None => true | Some _ => false end) l).
 
-Definition unique_prefix (sorted : list entry) : option (list entry) :=
+Definition unique_prefix (sorted : list hit) : option (list hit) :=
   match sorted with
   | [] => Some []
   | [e] => Some [e]
@@ -393,32 +410,36 @@ Definition unique_prefix (sorted : list entry) : option (list entry) :=
 
 Inductive sopt := Unmodified | Sorted | SortedUniquePrefix.
 
+(* which ports the collection lambda is applied to:
+     if(!*str || !strcmp(str, "/")) ports = &root;
+     else { port = root.apropos(str);
+            if(port) { if(port->ports) ports = port->ports; else single_port = port; } }
+     if(ports) for(const Port &p:*ports) fn(p); else if(single_port) fn( *single_port); *)
+Inductive addr_res := AdOk (children : list port) | AdCrash | AdUnsupported.
+
+Definition addressed (root : list port) (loc : str) : addr_res :=
+  if is_nil loc || streqb loc [47] then AdOk root
+  else match apropos root loc with
+       | ANull => AdOk []
+       | AFound id =>
+           match get_port root id with
+           | Some (Port _ _ (Some s)) => AdOk s
+           | Some p => AdOk [p]
+           | None => AdCrash                  (* apropos returns ports of the tree *)
+           end
+       | ACrash => AdCrash
+       | AUnsupported => AdUnsupported
+       end.
+
 (* void path_search(root, str, needle, types, max_types, args, max_args, opts,
-   reply_with_query = false), for buffers that are large enough *)
+   reply_with_query), for buffers that are large enough; the found
+   (name, metadata) pairs after the query strings *)
 Definition path_search (root : list port) (loc needle : str) (opt : sopt) : sres :=
-  let found :=
-    if is_nil loc || streqb loc [47] then Some (Some root, None)
-    else match apropos root loc with
-         | ANull => Some (None, None)
-         | AFound id =>
-             match get_port root id with
-             | Some (Port _ _ (Some s)) => Some (Some s, None)
-             | Some p => Some (None, Some p)
-             | None => None
-             end
-         | ACrash => None
-         | AUnsupported => None
-         end in
-  match found with
-  | None => match apropos root loc with AUnsupported => SUnsupported | _ => SCrash end
-  | Some (ports, single) =>
-      let collected :=
-        match ports, single with
-        | Some t, _ => collect needle t
-        | None, Some p => collect_one needle p
-        | None, None => Some []
-        end in
-      match collected with
+  match addressed root loc with
+  | AdCrash => SCrash
+  | AdUnsupported => SUnsupported
+  | AdOk children =>
+      match collect needle children with
       | None => SOob
       | Some es =>
           match opt with
@@ -445,14 +466,31 @@ Definition spec_children (needle : str) (t : list port) : list port :=
 Definition spec_unique (names : list str) (l : list port) : list port :=
   filter (fun p => negb (existsb (fun e => below e (pname p)) names)) l.
 
+(* a port's metadata bytes as the reply carries them: the whole block with its
+   terminators; nothing for a NULL or an empty block *)
+Definition spec_blob (m : option (list byte)) : option (list byte) * Z :=
+  match m with
+  | Some ((c :: _) as b) => if c =? 0 then (None, 0) else (Some b, Z.of_nat (length b))
+  | _ => (None, 0)
+  end.
+
+Definition hit_of (p : port) : hit :=
+  {| e_name := Some (pname p);
+     e_data := fst (spec_blob (pmeta p));
+     e_len := snd (spec_blob (pmeta p)) |}.
+
+(* metadata as the macros lay it out (C17), or no metadata *)
+Definition meta_wf (m : option (list byte)) : Prop :=
+  m = None \/ exists es, m = Some (render es) /\ Forall entry_ok es.
+
 (* ---- the reply message (second overload) ------------------------------------ *)
 (* size_t path_search(root, m, max_ports, msgbuf, bufsize, opts, false):
    rtosc_amessage(msgbuf, bufsize, "/paths", types, args) over the found
    entries; the result is (return value, msgbuf afterwards) *)
 Definition paths_addr : str := [47; 112; 97; 116; 104; 115].
 
-Definition reply_tags (es : list entry) : list byte := concat (map (fun _ => [115; 98]) es).
-Definition reply_args (es : list entry) : list payload :=
+Definition reply_tags (es : list hit) : list byte := concat (map (fun _ => [115; 98]) es).
+Definition reply_args (es : list hit) : list payload :=
   flat_map (fun e => [PStr (match e_name e with Some n => n | None => [] end);
                       PBlob (e_len e) (e_data e)]) es.
 
